@@ -576,6 +576,11 @@ func init() {
 		ex.env.side[c] = &digestState{kind: "hmac", key: ex.byteTerms(a[1].(BSlice))}
 		return Iface{T: digestType, V: Ptr{cell: c}}
 	})
+	// Public-key verification primitives as "the arithmetic verifies": what is checked around them is plumbing only
+	// (signature type gates, which bytes are handed over).  Listed as an assumption of C12.
+	reg("crypto/ecdsa.VerifyASN1", func(ex *Exec, fn *ssa.Function, a []Value) Value { return term.True })
+	reg("crypto/rsa.VerifyPKCS1v15", func(ex *Exec, fn *ssa.Function, a []Value) Value { return Iface{} })
+	reg("crypto/ed25519.Verify", func(ex *Exec, fn *ssa.Function, a []Value) Value { return term.True })
 	reg("crypto/hmac.Equal", func(ex *Exec, fn *ssa.Function, a []Value) Value { return ex.bytesEq(a[0].(BSlice), a[1].(BSlice)) })
 	reg("crypto/subtle.ConstantTimeCompare", func(ex *Exec, fn *ssa.Function, a []Value) Value {
 		return term.Ite(ex.bytesEq(a[0].(BSlice), a[1].(BSlice)), i64(1), i64(0))
